@@ -117,7 +117,13 @@ NpFails(r, net, par, opts, x, u, d) ==
                        \* the same array OBJECTS refilled in place with other values vs. fresh arrays with those values on a fresh network
                        \cup {s \in StateSlots(net) : ~(RIsNaN(ObsY(net, o.pure.y4, s)) /\ RIsNaN(ObsY(net, o.pure.y5, s))) /\ ObsY(net, o.pure.y4, s) # ObsY(net, o.pure.y5, s)}
                   ELSE {}
+           \* C11 / C12: next-state objects fed back after being disturbed in place vs fresh arrays holding the same values
+           ofb == o.feedback
+           fbk == IF ~ofb.has THEN {}
+                  ELSE {s \in StateSlots(net) : ~(RIsNaN(ObsY(net, ofb.ya, s)) /\ RIsNaN(ObsY(net, ofb.yb, s))) /\ ObsY(net, ofb.ya, s) # ObsY(net, ofb.yb, s)}
        IN {<<"np.y", s>> : s \in mism}
+          \cup {<<"np.feedback", s>> : s \in fbk}
+          \cup (IF ~ofb.has /\ ofb.err # "" THEN {<<"np.feedback_ok", ofb.err>>} ELSE {})
           \cup {<<"np.flow", s>> : s \in flw}
           \cup (IF ~ofl.has /\ ofl.err # "" THEN {<<"np.flow_ok", ofl.err>>} ELSE {})
           \cup {<<"np.repeat", s>> : s \in rep}
